@@ -171,6 +171,7 @@ const (
 	c16OCtl
 	c16ORequest
 	c16OThen
+	c16ORetune
 )
 
 type c16Case struct {
@@ -203,6 +204,7 @@ type c16CaseOut struct {
 	Complaints []c16Complaint
 	EverHeld   []int32
 	Unresolved []int
+	Panics     int
 }
 
 func c16Gid() uint64 {
@@ -282,6 +284,8 @@ type c16Driver struct {
 	step       int
 	complaints []c16Complaint
 	everHeld   map[int32]bool
+	max        int
+	panics     int // continuations that panicked (contained by the harness, as the turn's caller)
 	unresolved []int // steps whose OReply named a request that did not exist (yet): sent with an unrelated id
 }
 
@@ -423,7 +427,7 @@ func (d *c16Driver) stepOracle(op [3]int, o *c16Obs) {
 			if completed && cbset && !r.dropped {
 				want = 1
 			}
-			if calls != want {
+			if calls != want && !(r.dropped && calls <= 1) { // whether a shutdown cancellation may still run it is left to the model comparison
 				d.complain("exactly-once", "op %v: request %d completed=%v continuation-registered=%v shutdown-discarded=%v but continuation ran %d times", op, i, completed, cbset, r.dropped, calls)
 			}
 		}
@@ -475,6 +479,27 @@ func (d *c16Driver) stepOracle(op [3]int, o *c16Obs) {
 	}
 }
 
+// offTurn runs f on another goroutine and waits for it: replies, timer goroutines, Cancel and the
+// stopping goroutine are never the requester's turn.
+func c16OffTurn(f func()) {
+	done := make(chan struct{})
+	go func() {
+		defer close(done)
+		f()
+	}()
+	<-done
+}
+
+// guarded runs a piece of the turn; a panicking continuation must not take the bookkeeping with it
+func (d *c16Driver) guarded(f func()) {
+	defer func() {
+		if r := recover(); r != nil {
+			d.panics++
+		}
+	}()
+	f()
+}
+
 func (d *c16Driver) apply(op [3]int, nextIsFinish bool) (skip bool) {
 	pid, ctx := d.pid, d.ctx
 	switch op[0] {
@@ -485,9 +510,11 @@ func (d *c16Driver) apply(op [3]int, nextIsFinish bool) (skip bool) {
 			msg = &commands.AsyncRequest{CorrelationID: "in-" + strconv.Itoa(int(d.nextu)),
 				ReplyTo: &commands.AsyncReplyTo{Kind: commands.ReplyToActor, Actor: pathToAddress(d.target.Path())}, Message: msg}
 		}
-		if err := d.target.Tell(ctx, pid, msg); err == nil {
-			d.nextu++
-		}
+		c16OffTurn(func() {
+			if err := d.target.Tell(ctx, pid, msg); err == nil {
+				d.nextu++
+			}
+		})
 	case c16OReply:
 		corr := "unk-" + strconv.Itoa(op[1])
 		if op[1] < len(d.reqs) {
@@ -506,23 +533,25 @@ func (d *c16Driver) apply(op [3]int, nextIsFinish bool) (skip bool) {
 		default:
 			resp.Error = gerrors.ErrRequestCanceled.Error()
 		}
-		_ = d.target.Tell(ctx, pid, resp) // what actorSystem.tellAsyncResponse does
+		c16OffTurn(func() { _ = d.target.Tell(ctx, pid, resp) }) // what actorSystem.tellAsyncResponse does
 	case c16OTimerFire:
 		if op[1] < len(d.reqs) {
 			r := d.reqs[op[1]]
 			if r.armed && !r.fired {
 				r.fired = true
 				// the body of the timeout goroutine in requestState.startTimeout
-				_ = r.state.requester.enqueueAsyncError(context.Background(), r.state.id, gerrors.ErrRequestTimeout)
+				c16OffTurn(func() {
+					_ = r.state.requester.enqueueAsyncError(context.Background(), r.state.id, gerrors.ErrRequestTimeout)
+				})
 			}
 		}
 	case c16OCancel:
 		if op[1] < len(d.reqs) {
-			_ = d.reqs[op[1]].call.Cancel()
+			c16OffTurn(func() { _ = d.reqs[op[1]].call.Cancel() })
 		}
 	case c16OStop:
 		if d.phase == 0 {
-			pid.setState(stoppingState, true)
+			c16OffTurn(func() { pid.setState(stoppingState, true) })
 			d.phase = 1
 		}
 	case c16OCancelInFlight:
@@ -538,7 +567,7 @@ func (d *c16Driver) apply(op [3]int, nextIsFinish bool) (skip bool) {
 				d.taint = true
 			}
 		}
-		pid.cancelInFlightRequests(gerrors.ErrRequestCanceled)
+		c16OffTurn(func() { pid.cancelInFlightRequests(gerrors.ErrRequestCanceled) })
 		d.zeroed = true
 		for i, r := range d.reqs {
 			r.state.mu.Lock()
@@ -552,7 +581,7 @@ func (d *c16Driver) apply(op [3]int, nextIsFinish bool) (skip bool) {
 		}
 	case c16OReset:
 		if d.phase == 2 {
-			pid.reentrancy.Load().reset()
+			c16OffTurn(func() { pid.reentrancy.Load().reset() })
 			d.phase = 3
 			d.taint = false
 		}
@@ -572,7 +601,7 @@ func (d *c16Driver) apply(op [3]int, nextIsFinish bool) (skip bool) {
 		resp, isResp := rc.Message().(*commands.AsyncResponse)
 		if nextIsFinish || !isResp {
 			// the real path, whole: enableReentrancyStash, stash / handler / completeRequest
-			pid.dispatchOne(rc, time.Now())
+			d.guarded(func() { pid.dispatchOne(rc, time.Now()) })
 			return nextIsFinish
 		}
 		// emulated preemption point inside completeRequest: Get + complete now, deregister + continuation at OFinish
@@ -597,7 +626,7 @@ func (d *c16Driver) apply(op [3]int, nextIsFinish bool) (skip bool) {
 			d.mid = nil
 			pid.deregisterRequestState(m.state)
 			if m.cb != nil {
-				m.cb(m.result, m.err)
+				d.guarded(func() { m.cb(m.result, m.err) })
 			}
 		}
 	case c16OCtl:
@@ -638,12 +667,28 @@ func (d *c16Driver) apply(op [3]int, nextIsFinish bool) (skip bool) {
 			return false
 		}
 		r := d.reqs[op[1]]
-		r.call.Then(func(any, error) {
-			r.calls.Add(1)
-			if c16Gid() != d.gid {
-				r.offTurn.Add(1)
-			}
+		explode := op[2] == 1
+		d.guarded(func() {
+			r.call.Then(func(any, error) {
+				r.calls.Add(1)
+				if c16Gid() != d.gid {
+					r.offTurn.Add(1)
+				}
+				if explode {
+					panic("c16: continuation exploded")
+				}
+			})
 		})
+	case c16ORetune:
+		// ReceiveContext.EnableReentrancy / DisableReentrancy: only the default mode of later requests changes
+		switch op[1] {
+		case 0:
+			pid.disableReentrancy()
+		case 1:
+			_ = pid.enableReentrancy(reentrancy.New(reentrancy.WithMode(reentrancy.AllowAll), reentrancy.WithMaxInFlight(d.max)))
+		default:
+			_ = pid.enableReentrancy(reentrancy.New(reentrancy.WithMode(reentrancy.StashNonReentrant), reentrancy.WithMaxInFlight(d.max)))
+		}
 	}
 	return false
 }
@@ -673,7 +718,7 @@ func TestVerifC16Ops(t *testing.T) {
 	sys, ctx := c16System(t, "c16-ops")
 	target := c16Spawn(t, sys, ctx, "swallow", func(*ReceiveContext) {})
 	for ci, c := range cases {
-		d := &c16Driver{ctx: ctx, target: target, idx: map[string]int{}, gid: c16Gid(), everHeld: map[int32]bool{}}
+		d := &c16Driver{ctx: ctx, target: target, idx: map[string]int{}, gid: c16Gid(), everHeld: map[int32]bool{}, max: c.Max}
 		d.pid = c16Spawn(t, sys, ctx, fmt.Sprintf("req-%d", ci), func(rc *ReceiveContext) {
 			if m, ok := rc.Message().(*testpb.TestCount); ok {
 				if _, liveStash, _ := d.liveInTable(); liveStash > 0 {
@@ -718,6 +763,7 @@ func TestVerifC16Ops(t *testing.T) {
 		sort.Slice(out.EverHeld, func(i, j int) bool { return out.EverHeld[i] < out.EverHeld[j] })
 		out.Complaints = d.complaints
 		out.Unresolved = d.unresolved
+		out.Panics = d.panics
 		w.put(out)
 		// give the turn back and retire the actor
 		for _, r := range d.reqs {
